@@ -1343,18 +1343,20 @@ class Unit:
     @lru_cache(maxsize=None)
     def as_ratio(self) -> Tuple["Unit", "Unit"]:
         """Returns this unit, split into a numerator and denominator"""
-        numerator, denominator = self.dimension.as_ratio()
+        numerator = {u: e for u, e in self.factors.items() if e >= 0} or {One: 1}
+        denominator = {u: -e for u, e in self.factors.items() if e < 0} or {One: 1}
+
+        # each half's dimension comes from its own factors: a factor with a derived
+        # dimension (a g-force, a BTU) carries negative exponents into the numerator
+        def dimension_of(factors: Mapping["Unit", int]) -> Dimension:
+            dimension = Number
+            for unit, exponent in factors.items():
+                dimension *= unit.dimension**exponent
+            return dimension
+
         return (
-            Unit(
-                self.prefix,
-                {u: e for u, e in self.factors.items() if e >= 0} or {One: 1},
-                numerator,
-            ),
-            Unit(
-                IdentityPrefix,
-                {u: -e for u, e in self.factors.items() if e < 0} or {One: 1},
-                denominator,
-            ),
+            Unit(self.prefix, numerator, dimension_of(numerator)),
+            Unit(IdentityPrefix, denominator, dimension_of(denominator)),
         )
 
 
